@@ -351,6 +351,52 @@ def gen_f9(rng):
     return assemble(fk, pb, P, ws, has_norm, nb, flags, syms, qs)
 
 
+def py_cdf(fk, pb, P, ws, has_norm, nb):
+    """Python emulation of fast_quantized_cdf (only used to AIM quantiles at interval edges; a wrong
+    emulation would merely blunt the generator, never change a verdict)."""
+    n = len(ws)
+    if n < 2 or n >= (1 << P) - 1:
+        return None
+    vals = [fval(fk, b) for b in ws]
+    if any(not (v >= 0) or math.isinf(v) for v in vals):
+        return None
+    norm = fval(fk, nb) if has_norm else fsum(fk, ws)
+    if not (norm > 0) or math.isinf(norm) or norm != norm:
+        return None
+    free = (1 << P) - n
+    try:
+        scale = rnd(fk, rnd(fk, float(free)) / norm)
+    except (OverflowError, ZeroDivisionError):
+        return None
+    top = (1 << pb) - 1
+    cdf, c = [], 0.0
+    for i, v in enumerate(vals):
+        x = rnd(fk, c * scale)
+        if x != x or x <= 0:
+            k = 0
+        elif math.isinf(x) or x >= top:
+            k = top
+        else:
+            k = int(x)
+        cdf.append(min(k, free) + i)
+        c = rnd(fk, c + v)
+    return cdf + [1 << P]
+
+
+def edge_quantiles(rng, cdf, P, count):
+    """quantiles at and next to the ends of some symbols' intervals"""
+    qs = set()
+    n = len(cdf) - 1
+    top = (1 << P) - 1
+    for _ in range(count):
+        i = rng.randrange(n)
+        lo, hi = cdf[i], cdf[i + 1]
+        for q in (lo, lo + 1, hi - 1, hi - 2, hi, (lo + hi) // 2):
+            if 0 <= q <= top:
+                qs.add(q)
+    return qs
+
+
 def gen_lazy(rng):
     """C05: small precisions with a full quantile sweep, and large tables at large precisions
     with quantiles aimed at the skip-ahead loop of the lazy decoder."""
@@ -367,6 +413,12 @@ def gen_lazy(rng):
     ws = gen_weights(rng, fk, n)
     has_norm, nb = gen_norm(rng, fk, ws)
     syms, qs = gen_queries(rng, P, n, nmax_sym=10, nmax_q=16)
+    cdf = py_cdf(fk, pb, P, ws, has_norm, nb)
+    if cdf:
+        # the skip-ahead loop of the lazy decoder can only go wrong just below a symbol's right
+        # edge: aim there (this is what exposes a non-conservative skip bound when PRECISION
+        # exceeds the float's mantissa width)
+        qs = sorted(set(qs) | edge_quantiles(rng, cdf, P, 8))
     return assemble(fk, pb, P, ws, has_norm, nb, flags, syms, qs)
 
 
